@@ -4,7 +4,7 @@
    answer), every rule database, ban list, solver fuel and input list.  The default threshold is
    0, whose key is 0, and every confidence key is >= 0 (A5) -- hence the first hypothesis. *)
 From Coq Require Import String ZArith List Bool.
-From SynRBL Require Import Base.Dict Model.Comp Model.Matcher Model.Pipeline Proofs.PipelineProofs.
+From SynRBL Require Import Base.Dict Model.Comp Model.Matcher Model.Pipeline Proofs.PipelineProofs Proofs.RowLocal Proofs.Balanced Proofs.RunLevel Proofs.Declined.
 Import ListNotations.
 Open Scope string_scope.
 
@@ -21,13 +21,29 @@ Theorem C03_solved_named : forall O db ban fuel t tmsg ins rows st,
     sby r = Some M_INPUT \/ sby r = Some M_RB \/ sby r = Some M_MCS.
 Proof. exact solved_named. Qed.
 
-(* Not proved here (kept visible; decided by the correspondence + oracle run only):
-   - a solved row has an empty or absent issue: immediate for rows solved before the search
-     (no stage has written the column yet); for mcs-based rows it needs the oracle fact
-     "impute_reaction succeeds only on an empty issue" plus a determinism argument for rows
-     whose imputation failed;
-   - a carbon-deficit reaction is always declined: needs the oracle fact "impute_reaction
-     refuses reactant-side carbon imbalance" and that appended water carries no carbon. *)
+(* The two remaining clauses.  They need facts about what the oracles answer (hypotheses, validated on every
+   recorded run by the check):
+     (H1) impute_reaction succeeds only when the search left an empty issue (it raises otherwise);
+     (H2) the water molecules that the both-side shortcut inserts never balance a reaction by themselves
+          (a consequence of C07's additivity: a "Both" verdict has a deficit in an element other than O);
+     (H3) impute_reaction refuses reactant-side carbon imbalance.
+   With them the pipeline is deterministic enough: a row that is unsolved after the rule-based validation and
+   whose reaction the imputation did not extend is still unsolved after the second rule-based run and the
+   final validation (Proofs/Declined.late_unsolved). *)
+Theorem C03_solved_rows_have_empty_or_absent_issue : forall O db ban fuel,
+  (forall s m ru, impute O s = ImpOk m ru -> snd (mcs_state O s) = "") ->
+  (forall r, bal O (rxn (rb_water O r)) = true -> rxn (rb_water O r) = rxn r) ->
+  forall t tmsg ins rows st, run O db ban fuel t tmsg ins = Done (rows, st) ->
+  forall r, In r rows -> solved r = true -> issue r = None \/ issue r = Some "".
+Proof. exact run_solved_issue_empty. Qed.
+
+Theorem C03_carbon_deficit_declined : forall O db ban fuel,
+  (forall r, bal O (rxn (rb_water O r)) = true -> rxn (rb_water O r) = rxn r) ->
+  forall t tmsg ins rows st, run O db ban fuel t tmsg ins = Done (rows, st) ->
+  Forall2 (fun s r => carbon_of O s = CReactants ->
+                      (forall m ru, impute O s = ImpOk m ru -> carbon_of O s <> CReactants) -> solved r = false)
+          (admitted O ins) rows.
+Proof. intros O db ban fuel H2. exact (run_carbon_deficit_declined O db ban fuel H2). Qed.
 
 (* non-vacuity: a run with a declined row and a solved row (tiny oracle tables) *)
 Definition O0 : oracles :=
@@ -44,3 +60,5 @@ Proof. vm_compute. reflexivity. Qed.
 
 Print Assumptions C03_declined_untouched.
 Print Assumptions C03_solved_named.
+Print Assumptions C03_solved_rows_have_empty_or_absent_issue.
+Print Assumptions C03_carbon_deficit_declined.
